@@ -4,11 +4,18 @@
    squash_changes) and are stated for the real hash: they need [H b <> []] for all b, which is
    proved of keccak256 and is false of a degenerate H (counterexample machine-checked in
    D_safety.C07_degenerate_H).  Only the property theorems.
-   Retry convergence is proved for get and traverse (C07_retry_get / C07_retry_traverse); for
-   set / delete (which report prefix None) it is checked by the harness's retry loop only. *)
+   Retry convergence is proved for get and traverse (C07_retry_get / C07_retry_traverse) and,
+   for non-pruning tries, for set / delete (C07_retry_set / C07_retry_delete, Hexary/
+   D_retry_write.v: two runs in lockstep over a sub-store and the complete store).
+   For PRUNING tries the lockstep argument yields a third outcome (the C07_write_outcomes theorems): the
+   model's _complete_pruning turns the KeyError of `del db[k]` into ValidationError, and over
+   an ARBITRARY pair of stores that deletion can fail on the sub-store only
+   (D_retry_write.PruneCounterexample, a store that is not content-addressed).  On stores
+   produced by the trie itself every pruned key was read on the way down, so the outcome does
+   not arise; that exclusion is not proved and rests on the correspondence runs with prune=True. *)
 From Coq Require Import List NArith Bool.
 From PyTrie.Base Require Import Bytes Result AMap Nibbles Rlp Keccak.
-From PyTrie.Hexary Require Import Raw D D_safety D_read D_retry.
+From PyTrie.Hexary Require Import Raw D D_safety D_read D_retry D_retry_write.
 Import ListNotations.
 
 (* same result as on the complete database, or a Missing* error naming a hash that is absent
@@ -107,3 +114,81 @@ Theorem C07_retry_traverse : forall BNH full m r ns, sub_store m full ->
   (length asked <= length (path_refs BNH full r ns))%nat.
 Proof. exact D_retry.C07_retry_traverse. Qed.
 Print Assumptions C07_retry_traverse.
+
+(* ---- set / delete over a sub-store (wrel t1 t2: same trie state over plain stores m1 ⊆ m2) ---- *)
+Theorem C07_same_or_missing_set : forall BNH k v t1 t2, wrel t1 t2 -> t_prune t1 = false ->
+  (fst (set keccak256 BNH k v t1) = fst (set keccak256 BNH k v t2) /\
+   wrel (snd (set keccak256 BNH k v t1)) (snd (set keccak256 BNH k v t2)) /\
+   t_prune (snd (set keccak256 BNH k v t1)) = false) \/
+  (exists h, set keccak256 BNH k v t1 = (Err (EMissingTrieNode h (t_root t1) k None), t1) /\
+             aget (tcells t1) h = None /\ aget (tcells t2) h <> None).
+Proof. exact D_retry_write.C07_same_or_missing_set. Qed.
+Print Assumptions C07_same_or_missing_set.
+
+Theorem C07_same_or_missing_delete : forall BNH k t1 t2, wrel t1 t2 -> t_prune t1 = false ->
+  (fst (delete keccak256 BNH k t1) = fst (delete keccak256 BNH k t2) /\
+   wrel (snd (delete keccak256 BNH k t1)) (snd (delete keccak256 BNH k t2)) /\
+   t_prune (snd (delete keccak256 BNH k t1)) = false) \/
+  (exists h, delete keccak256 BNH k t1 = (Err (EMissingTrieNode h (t_root t1) k None), t1) /\
+             aget (tcells t1) h = None /\ aget (tcells t2) h <> None).
+Proof. exact D_retry_write.C07_same_or_missing_delete. Qed.
+Print Assumptions C07_same_or_missing_delete.
+
+(* pruning or not: same result / truthful atomic MissingTrieNode / (pruning only) ValidationError
+   caused by a key absent here and present there *)
+Theorem C07_write_outcomes_set : forall BNH k v t1 t2, wrel t1 t2 -> (t_prune t1 = false \/ root_ok BNH t1) ->
+  (fst (set keccak256 BNH k v t1) = fst (set keccak256 BNH k v t2) /\
+   wrel (snd (set keccak256 BNH k v t1)) (snd (set keccak256 BNH k v t2)) /\
+   t_prune (snd (set keccak256 BNH k v t1)) = t_prune t1 /\
+   (root_ok BNH t1 -> root_ok BNH (snd (set keccak256 BNH k v t1)))) \/
+  (exists h, set keccak256 BNH k v t1 = (Err (EMissingTrieNode h (t_root t1) k None), t1) /\
+             aget (tcells t1) h = None /\ aget (tcells t2) h <> None) \/
+  (exists h, t_prune t1 = true /\ fst (set keccak256 BNH k v t1) = Err EValidation /\
+             aget (tcells t1) h = None /\ aget (tcells t2) h <> None).
+Proof. exact D_retry_write.C07_write_outcomes_set. Qed.
+Print Assumptions C07_write_outcomes_set.
+
+Theorem C07_write_outcomes_delete : forall BNH k t1 t2, wrel t1 t2 -> (t_prune t1 = false \/ root_ok BNH t1) ->
+  (fst (delete keccak256 BNH k t1) = fst (delete keccak256 BNH k t2) /\
+   wrel (snd (delete keccak256 BNH k t1)) (snd (delete keccak256 BNH k t2)) /\
+   t_prune (snd (delete keccak256 BNH k t1)) = t_prune t1 /\
+   (root_ok BNH t1 -> root_ok BNH (snd (delete keccak256 BNH k t1)))) \/
+  (exists h, delete keccak256 BNH k t1 = (Err (EMissingTrieNode h (t_root t1) k None), t1) /\
+             aget (tcells t1) h = None /\ aget (tcells t2) h <> None) \/
+  (exists h, t_prune t1 = true /\ fst (delete keccak256 BNH k t1) = Err EValidation /\
+             aget (tcells t1) h = None /\ aget (tcells t2) h <> None).
+Proof. exact D_retry_write.C07_write_outcomes_delete. Qed.
+Print Assumptions C07_write_outcomes_delete.
+
+(* the loop "on MissingTrieNode h: supply full[h]; retry" for set / delete on a non-pruning trie:
+   ends with the complete-store result and root, asks only for nodes absent here and present
+   there, each once, at most as many as the complete store has keys absent here *)
+Theorem C07_retry_set : forall BNH full m r k v, sub_store m full ->
+  mh8 (fst (set keccak256 BNH k v (plain full r))) = None ->
+  forall fuel, (owed (akeys full) m < fuel)%nat ->
+  let '(res, t', asked) := retry_set keccak256 BNH fuel full (plain m r) k v [] in
+  let '(want, tw) := set keccak256 BNH k v (plain full r) in
+  res = want /\ t_root t' = t_root tw /\ sub_store (tcells t') (tcells tw) /\ wrel t' tw /\
+  NoDup asked /\ (forall h, In h asked -> aget m h = None /\ aget full h <> None) /\
+  (length asked <= owed (akeys full) m)%nat /\
+  (exists mf, set keccak256 BNH k v (plain mf r) = (res, t') /\
+     forall x, aget mf x = if existsb (bytes_eqb x) asked then aget full x else aget m x).
+Proof. exact D_retry_write.C07_retry_set. Qed.
+Print Assumptions C07_retry_set.
+
+Theorem C07_retry_delete : forall BNH full m r k, sub_store m full ->
+  mh8 (fst (delete keccak256 BNH k (plain full r))) = None ->
+  forall fuel, (owed (akeys full) m < fuel)%nat ->
+  let '(res, t', asked) := retry_delete keccak256 BNH fuel full (plain m r) k [] in
+  let '(want, tw) := delete keccak256 BNH k (plain full r) in
+  res = want /\ t_root t' = t_root tw /\ sub_store (tcells t') (tcells tw) /\ wrel t' tw /\
+  NoDup asked /\ (forall h, In h asked -> aget m h = None /\ aget full h <> None) /\
+  (length asked <= owed (akeys full) m)%nat /\
+  (exists mf, delete keccak256 BNH k (plain mf r) = (res, t') /\
+     forall x, aget mf x = if existsb (bytes_eqb x) asked then aget full x else aget m x).
+Proof. exact D_retry_write.C07_retry_delete. Qed.
+Print Assumptions C07_retry_delete.
+
+(* non-vacuity (keccak256; a store missing the root and its child on the key's path) *)
+Print Assumptions RetryWriteExample.ex_retry_set.
+Print Assumptions RetryWriteExample.ex_retry_delete.
